@@ -7,7 +7,7 @@ from hypothesis import strategies as st
 
 from vt import tt
 from vt.cmp import arr, maxabs
-from vt.gen.basic import fl, logu, simplex
+from vt.gen.basic import fl, logu
 from vt.oracle import ratemat as rm
 from vt.runner import Res, Sub, h64
 
@@ -61,7 +61,7 @@ def _n(ss):
 
 
 def _tval():
-    return st.one_of(st.just(0.0), logu(1e-8, 100.0), logu(1e-8, 100.0), logu(1e-3, 10.0))
+    return st.one_of(st.just(0.0), logu(1e-8, 100.0), logu(1e-8, 100.0), logu(1e-8, 100.0), logu(1e-3, 10.0), logu(1e-3, 10.0), logu(1.0, 100.0))
 
 
 @st.composite
@@ -101,9 +101,16 @@ def _rates(draw, m, equal=False):
 
 
 def _freqs(draw, k, uniform=False):
+    """normalised exponentials of a vector whose spread is itself drawn (flat ... ratio 1e4)"""
     if uniform:
         return [1.0 / k] * k
-    return draw(simplex(k))
+    spread = draw(logu(0.3, math.log(1e4)))
+    u = draw(st.lists(fl(0.0, 1.0), min_size=k, max_size=k))
+    if max(u) - min(u) < 0.05:  # Hypothesis is fond of constant lists: tilt them
+        u = [(x + 0.9 * i / (k - 1)) % 1.0 for i, x in enumerate(u)]
+    e = [math.exp(spread * (x - max(u))) for x in u]
+    tot = sum(e)
+    return [x / tot for x in e]
 
 
 @st.composite
@@ -328,6 +335,20 @@ def _audit(Qn, pi, t, reversible):
         raise AssertionError("oracle audit: scipy expm differs from mpmath by %g (t=%r, Q=%r)" % (err, t, np.asarray(Qn).tolist()))
 
 
+def _reference(Qn, pi, t, reversible, fast):
+    """reference P(t) for the verdict on a suspected mismatch: multiple precision, so that
+    neither scipy's nor torchtree's rounding decides; `fast` is scipy's value (returned for
+    t = 0 and for large non-reversible matrices, which do not occur here)"""
+    k = np.asarray(Qn).shape[0]
+    if t == 0.0:
+        return fast
+    if k <= 8:
+        return rm.expm_mp(np.asarray(Qn) * t)
+    if reversible:
+        return rm.p_t_reversible_mp(Qn, pi, t, dps=30)
+    return fast
+
+
 def _band(x, edges, names):
     for e, nm in zip(edges, names):
         if x < e:
@@ -358,6 +379,7 @@ def body(c):
 
     # ---- non-triviality and identity
     anypos = bool(np.any(tper > 0))
+    nonuni = uneq = True
     if model in PARAM_FREE:
         nontrivial = anypos
     else:
@@ -369,7 +391,8 @@ def body(c):
         nontrivial = anypos and nonuni and uneq
     key = (model, c.get("k"), c.get("code"), c.get("mapping"), c["ss"], c["fbatch"], c["tshape"], c["B"], c["K"],
            _sig(c.get("rates")), _sig(c.get("freqs")), _sig(c["t"]), _sig(c["tfac"]))
-    res = Res(nontrivial=nontrivial, key=key, labels=(model, "batch:" + batch, "t:" + c["tshape"]), tags=tags)
+    why = "nontrivial" if nontrivial else ("trivial:all-t-zero" if not anypos else ("trivial:uniform-frequencies" if not nonuni else "trivial:equal-rates"))
+    res = Res(nontrivial=nontrivial, key=key, labels=(model, "batch:" + batch, "t:" + c["tshape"], why), tags=tags)
 
     # ---- the model's own rate matrix and frequencies
     Qm = arr(m.q())
@@ -470,6 +493,9 @@ def body(c):
             err = maxabs(Pij, ref)
             worst = max(worst, err)
             if not err <= tolP:
+                ref = _reference(Qn, pi, t, model in REVERSIBLE, ref)
+                err = maxabs(Pij, ref)
+            if not err <= tolP:
                 return res.fail("mismatch", dict(d2, err=err, p=Pij.tolist(), expected=ref.tolist()), tband=_band(t, [1e-4, 1e-1, 10], ["<1e-4", "<1e-1", "<10", ">=10"]))
             if np.max(np.abs(Pij.sum(axis=1) - 1.0)) > tolP or np.min(Pij) < -tolP:
                 return res.fail("not_stochastic", dict(d2, rowsums=Pij.sum(axis=1).tolist(), min=float(np.min(Pij))))
@@ -487,6 +513,8 @@ def body(c):
             return res.fail("semigroup", dict(d, s=s1, u=s2, err=e3))
         for j, tv in enumerate((s1, s2, s1 + s2)):
             e = maxabs(Ptri[i, j], rm.p_t(Qn, tv))
+            if not e <= TOL_P:
+                e = maxabs(Ptri[i, j], _reference(Qn, pi, tv, model in REVERSIBLE, rm.p_t(Qn, tv)))
             if not e <= TOL_P:
                 return res.fail("mismatch", dict(d, t=tv, err=e, what="semigroup triple"), tband=_band(tv, [1e-4, 1e-1, 10], ["<1e-4", "<1e-1", "<10", ">=10"]))
 
@@ -565,7 +593,7 @@ def body_unit(c):
     cc = {"model": "MG94", "code": c["code"], "k": k, "ss": [], "fbatch": False, "rates": [[1.0, 1.0, 1.0]], "freqs": [[1.0 / k] * k]}
     m, _ = tt.build(spec_of(cc))
     Q = arr(m.q())
-    res = Res(nontrivial=True, key=("unit", c["code"]), labels=("MG94-unit",), tags={"model": "MG94", "code": c["code"], "unit": True})
+    res = Res(nontrivial=False, key=("unit", c["code"]), labels=("MG94-unit", "trivial:unit-rates-uniform-frequencies"), tags={"model": "MG94", "code": c["code"], "unit": True})
     if Q.shape != (k, k):
         return res.fail("q_shape", {"q": list(Q.shape), "states": k})
     expect = np.full((k, k), 1.0 / k)
@@ -656,11 +684,11 @@ def _pretags(c):
 
 def subchecks(tier):
     subs = [
-        Sub("nucleotide", body, strategy=nucleotide_cases, quick=700, thorough=40000, pretags=_pretags),
-        Sub("general", body, strategy=general_cases, quick=700, thorough=40000, pretags=_pretags),
-        Sub("single_matrix", body, strategy=single_matrix_cases, quick=100, thorough=4000, pretags=_pretags),
-        Sub("empirical", body, strategy=empirical_cases, quick=60, thorough=1500, pretags=_pretags),
-        Sub("codon", body, strategy=codon_cases, quick=120, thorough=4000, pretags=_pretags),
+        Sub("nucleotide", body, strategy=nucleotide_cases, quick=1600, thorough=40000, pretags=_pretags),
+        Sub("general", body, strategy=general_cases, quick=1600, thorough=40000, pretags=_pretags),
+        Sub("single_matrix", body, strategy=single_matrix_cases, quick=200, thorough=4000, pretags=_pretags),
+        Sub("empirical", body, strategy=empirical_cases, quick=100, thorough=1500, pretags=_pretags),
+        Sub("codon", body, strategy=codon_cases, quick=300, thorough=4000, pretags=_pretags),
         Sub("codes", body, enumerate=codes_enum, exhaustive=True, pretags=_pretags),
         Sub("unit", body, enumerate=unit_enum, exhaustive=True, pretags=_pretags),
     ]
